@@ -595,9 +595,11 @@ pub fn main(args: &[String]) {
             0 | 1 => seq_fresh(&mut rng, format!("f{}", k), len, &mut recs, k % 8 == 1),
             _ => seq_adf(&mut rng, format!("a{}", k), len.min(14), &mut recs),
         }
+        // own random stream: builds without the frontend feature must generate the very same other sequences
         #[cfg(feature = "frontend")]
         if k % 5 == 4 {
-            seq_mirror(&mut rng, format!("m{}", k), len.min(12), &mut recs);
+            let mut mr = StdRng::seed_from_u64(seed ^ 0x3127_0000 ^ (k as u64));
+            seq_mirror(&mut mr, format!("m{}", k), len.min(12), &mut recs);
         }
     }
     // long sequences on large stores, spread over the trace
